@@ -14,6 +14,7 @@ import (
 	"github.com/Eyevinn/mp4ff/mp4"
 
 	"verifharness/ref/bitw"
+	"verifharness/ref/boxwalk"
 	"verifharness/runner"
 )
 
@@ -243,6 +244,19 @@ func TestMP4Frames(t *testing.T) {
 		seen[mc.usedFrame+" "+mc.cfgClass+" "+mc.smpClass]++
 		if out != "" && sub < mp4SysCount() {
 			_ = os.WriteFile(filepath.Join(out, fmt.Sprintf("%04d-%s-%s-%s-%s.mp4", sub, mc.spec.codec(), mc.spec.Frame, mc.cfgClass, mc.smpClass)), file, 0o644)
+		}
+		// every file, whatever it carries, must be a well-formed container: the boxes tile it exactly
+		if _, err := boxwalk.Walk(file); err != nil {
+			t.Errorf("%s: the file does not tile into boxes: %v", mc.desc, err)
+		}
+		if mc.smpClass == "valid" {
+			switch mc.cfgClass {
+			case "absent", "zero-sps", "zero-sps-zero-pps", "zero-pps", "many", "hrd-sps":
+				// records the library accepts: the container parser must accept the file
+				if _, err := mp4.DecodeFile(bytes.NewReader(file)); err != nil {
+					t.Errorf("%s: DecodeFile: %v", mc.desc, err)
+				}
+			}
 		}
 		if mc.cfgClass != "valid" || mc.smpClass != "valid" {
 			continue
